@@ -795,7 +795,7 @@ class Interp:
             key = (base.origin, name)
             if key in self.cell_attrs:
                 return self.cell_attrs[key]
-            if name in ('title', 'column', 'row') and base.tag.startswith('tok:') and base.tag in self.handled:
+            if name in ('title', 'column', 'row') and base.tag.startswith('tok:') and base.tag.split('#')[0] in self.handled:
                 return NumV('coord', (name, base.origin, base.tag))
             if name in ('title', 'column', 'row', 'value'):
                 v = getattr(base, name)
@@ -1061,7 +1061,10 @@ class Interp:
             owner = env.get('self')
             tag = ''
             if isinstance(owner, Tok):
-                tag = 'tok:' + '/'.join(map(str, owner.path))
+                cnt = self.__dict__.setdefault('_cellcount', {})
+                k = cnt.get(owner.path, 0)
+                cnt[owner.path] = k + 1
+                tag = 'tok:' + '/'.join(map(str, owner.path)) + (f'#{k}' if k else '')
             origin = f'new@{self.where()}:{getattr(node, "lineno", 0)}:{getattr(node, "col_offset", 0)}:{tag}'
             return CellV(origin, d.get('title'), d.get('column'), d.get('row', NONE), d.get('value', NONE), tag)
         args = []
@@ -1147,7 +1150,7 @@ class Interp:
             # the callee normalises (handle_cell) the Cell objects cached on this token
             self.handled.add('tok:' + '/'.join(map(str, subj.path)))
         elif isinstance(subj, CellV) and subj.tag.startswith('tok:'):
-            self.handled.add(subj.tag)
+            self.handled.add(subj.tag.split('#')[0])
         return code_of(Part('slot', translator, subj, node=node))
 
     def call_repo(self, fi: FunctionInfo, args, kwargs, node) -> V:
@@ -1514,15 +1517,18 @@ class Interp:
             self.effects.append(Effect('excel-call', {'name': name, 'args': args}, node))
             for a in args:
                 if isinstance(a, CellV) and a.tag.startswith('tok:'):
-                    self.handled.add(a.tag)
+                    self.handled.add(a.tag.split('#')[0])
+            def ctag(a):
+                return a.tag if isinstance(a, CellV) and a.tag else type(a).__name__
             if name == 'get_range':
-                return ListV((CellV(f'excel.get_range@{self._nid(node)}', tag='area-cell'),), filtered=True)
-            if name == 'get_matrix':
-                return ListV((ListV((CellV(f'excel.get_matrix@{self._nid(node)}', tag='area-cell'),), filtered=True),),
+                return ListV((CellV(f'excel.get_range@{self._nid(node)}', tag='area:' + ';'.join(ctag(a) for a in args)),),
                              filtered=True)
+            if name == 'get_matrix':
+                return ListV((ListV((CellV(f'excel.get_matrix@{self._nid(node)}',
+                                           tag='area:' + ';'.join(ctag(a) for a in args)),), filtered=True),), filtered=True)
             if name == 'get_similar_second':
-                return CellV(f'excel.get_similar_second@{self._nid(node)}', tag='similar',
-                             title=TupleV(tuple(args)))
+                return CellV(f'excel.get_similar_second@{self._nid(node)}',
+                             tag='similar:(' + ';'.join(ctag(a) for a in args) + ')', title=TupleV(tuple(args)))
             if name in ('fill_cell', '_fill_cell'):
                 return args[0] if args else NONE
             if name == 'get_cells':
